@@ -73,6 +73,10 @@ fn template(k: u64, r: &str, l: &str) -> String {
     6 => format!("[10, 20, 30][item > ({})]", r),
     7 => format!("every i in [1] satisfies ({}) > 0", r),
     8 => format!("for i in [{}] return i + 1", r),
+    9 => format!("[1 instance of tX, {}][2]", r),
+    20 => format!("[1 instance of list<tX>, {}][2]", r),
+    21 => format!("if 1 instance of tX then ({r}) else ({r})", r = r),
+    16 => format!("{{\"{}\": 7, r: {}}}.r", l, r),
     10 => format!("{{{}: 7, r: {}}}.r", l, r),
     11 => format!("for {} in [7] return {}", l, r),
     12 => format!("(function({}) {})(7)", l, r),
@@ -125,12 +129,17 @@ pub fn check(mut ctx: Ctx, replay: Option<J>) -> ! {
         let parts = parts_of(c);
         recs.push(run_case(names, &parts, 0, &[]));
         if parts.len() > 1 {
-          recs.push(run_case(names, &parts, 1 + (k % 8), &[]));
+          recs.push(run_case(names, &parts, [1, 2, 3, 4, 5, 6, 7, 8, 9, 20, 21][(k % 11) as usize], &[]));
           k += 1;
         }
       }
       for c in s["locals"].as_array().unwrap() {
-        recs.push(run_case(names, &parts_of(&c["parts"]), 10 + (k % 3), &parts_of(&c["local"])));
+        let local = parts_of(&c["local"]);
+        recs.push(run_case(names, &parts_of(&c["parts"]), 10 + (k % 3), &local));
+        // the same entry with its key written as a string literal (names made of words only)
+        if k % 3 == 0 && !local.iter().any(|p| SYMS.contains(&p.as_str())) {
+          recs.push(run_case(names, &parts_of(&c["parts"]), 16, &local));
+        }
         k += 1;
       }
       // a local name that shadows an outer binding, bound to null
@@ -163,7 +172,7 @@ pub fn check(mut ctx: Ctx, replay: Option<J>) -> ! {
     let bound_first_word = !local.is_empty() && r["names"].as_array().map_or(false, |a| a.iter().any(|n| n["n"] == local[0].as_str()));
     let sig = if bound_first_word && local.len() > 1 && [10u64, 12].contains(&r["tpl"].as_u64().unwrap_or(0)) {
       format!("declared-name-beginning-with-a-bound-word:{}", if r["tpl"] == 10 { "context-entry-key" } else { "function-parameter" })
-    } else if dots >= 2 && [1u64, 2, 3, 6, 7, 8].contains(&r["tpl"].as_u64().unwrap_or(0)) {
+    } else if dots >= 2 && [1u64, 2, 3, 6, 7, 8, 21].contains(&r["tpl"].as_u64().unwrap_or(0)) {
       "path-of-three-or-more-segments-directly-after-an-opening-bracket".to_string()
     } else {
       format!("tpl{}:symbols[{}]:parts{}", r["tpl"], syms.join(""), r["parts"].as_array().map(|a| a.len()).unwrap_or(0))
